@@ -7,5 +7,683 @@ import Mathlib.Algebra.Order.Ring.Rat
 import Mathlib.Tactic.Linarith
 namespace VL.Blt
 open VL
+set_option linter.unusedSimpArgs false
+
+
+@[simp] theorem ok_bind {α β} (a : α) (f : α → Except Err β) : (Except.ok a >>= f) = f a := rfl
+@[simp] theorem err_bind {α β} (e : Err) (f : α → Except Err β) : ((Except.error e : Except Err α) >>= f) = Except.error e := rfl
+@[simp] theorem pure_eq {α} (a : α) : (pure a : Except Err α) = Except.ok a := rfl
+@[simp] theorem throw_eq {α} (e : Err) : (throw e : Except Err α) = Except.error e := rfl
+
+/-! ### number lines written by the writer -/
+
+theorem parseItems_nats (a : Bool) : ∀ ns : List Nat,
+    parseItems a false (ns.map Tok.nat) = .ok (ns.map Num.nat)
+  | [] => rfl
+  | n :: t => by simp [parseItems, parseItems_nats a t]
+
+/-- the weight item of a well-formed ballot is read back with the same value -/
+theorem weightTok_num (w : Weight) (h : weightOK w = true) :
+    ∃ x : Num, parseItems true true [weightTok w] = .ok [x] ∧ x.val = w.val ∧ x ≠ Num.nan ∧
+      ∀ ts, parseItems true true (weightTok w :: ts) = (parseItems true false ts >>= fun xs => pure (x :: xs)) := by
+  cases w with
+  | int z =>
+    have hz : 0 ≤ z := by simpa [weightOK] using h
+    refine ⟨.nat z.toNat, by simp [weightTok, hz, parseItems], ?_, by simp, ?_⟩
+    · simp only [Num.val, Weight.val]
+      have : ((z.toNat : Int)) = z := Int.toNat_of_nonneg hz
+      exact_mod_cast this
+    · intro ts; simp [weightTok, hz, parseItems]
+  | decimal r digits =>
+    simp only [weightOK, Bool.and_eq_true, decide_eq_true_eq, Bool.or_eq_true, Bool.not_eq_true'] at h
+    obtain ⟨h0, hd⟩ := h
+    cases digits with
+    | false =>
+      exact ⟨.dec r, by simp [weightTok, parseItems], rfl, by simp, by intro ts; simp [weightTok, parseItems]⟩
+    | true =>
+      have hden : r.den = 1 := by simpa using hd
+      have hnum : 0 ≤ r.num := Rat.num_nonneg.2 h0
+      refine ⟨.nat r.num.toNat, by simp [weightTok, parseItems], ?_, by simp, by intro ts; simp [weightTok, parseItems]⟩
+      simp only [Num.val, Weight.val]
+      have h1 : ((r.num.toNat : Int)) = r.num := Int.toNat_of_nonneg hnum
+      have h2 : (r.num : Rat) = r := by
+        have := Rat.num_div_den r
+        rw [hden] at this
+        simpa using this
+      rw [← h2]
+      exact_mod_cast h1
+  | fraction r =>
+    simp only [weightOK, Bool.and_eq_true, decide_eq_true_eq] at h
+    obtain ⟨h0, hden⟩ := h
+    have hnum : 0 ≤ r.num := Rat.num_nonneg.2 h0
+    refine ⟨.nat r.num.toNat, by simp [weightTok, hden, hnum, parseItems], ?_, by simp,
+      by intro ts; simp [weightTok, hden, hnum, parseItems]⟩
+    simp only [Num.val, Weight.val]
+    have h1 : ((r.num.toNat : Int)) = r.num := Int.toNat_of_nonneg hnum
+    have h2 : (r.num : Rat) = r := by
+      have := Rat.num_div_den r
+      rw [hden] at this
+      simpa using this
+    rw [← h2]
+    exact_mod_cast h1
+
+
+theorem natsOf_nats : ∀ ns : List Nat, natsOf (ns.map Num.nat) = ns
+  | [] => rfl
+  | n :: t => by simp [natsOf, natsOf_nats t]
+
+/-- a ballot line of the writer, as the body loop reads it -/
+theorem parse_dumpVote (idx : List Nat) (w : Weight) (h : weightOK w = true) :
+    ∃ x : Num, x.val = w.val ∧ x ≠ Num.nan ∧
+      parseNumline true (dumpVote (idx, w)) = .ok (x :: ((idx.map (· + 1)).map Num.nat ++ [Num.nat 0])) := by
+  obtain ⟨x, _, hv, hn, hts⟩ := weightTok_num w h
+  refine ⟨x, hv, hn, ?_⟩
+  simp only [dumpVote, parseNumline]
+  rw [hts]
+  have : (idx.map (fun i => Tok.nat (i + 1)) ++ [Tok.nat 0]) = ((idx.map (· + 1)) ++ [0]).map Tok.nat := by simp
+  rw [this, parseItems_nats]
+  simp
+
+theorem getLast?_append_single {α} (l : List α) (a : α) : (l ++ [a]).getLast? = some a := by simp
+
+/-- one ballot line: the body loop adds the ballot and goes on -/
+theorem parseBody_vote (idx : List Nat) (w : Weight) (h : weightOK w = true) (h0 : 0 ≤ w.val)
+    (rest : List Line) (bs : RawBallots) (wd : List Rat) (seen : Bool) :
+    parseBody (dumpVote (idx, w) :: rest) bs wd seen
+      = parseBody rest (addBallot bs (idx.map (· + 1)) w.val) wd true := by
+  obtain ⟨x, hv, hn, hp⟩ := parse_dumpVote idx w h
+  simp only [parseBody, hp, ok_bind]
+  have hne : ((idx.map (· + 1)).map Num.nat ++ [Num.nat 0]).isEmpty = false := by simp
+  have hlt : ¬ x.val < 0 := by rw [hv]; exact not_lt.2 h0
+  have hlast : (x :: ((idx.map (· + 1)).map Num.nat ++ [Num.nat 0])).getLast? = some (Num.nat 0) := by
+    rw [show x :: ((idx.map (· + 1)).map Num.nat ++ [Num.nat 0]) = (x :: (idx.map (· + 1)).map Num.nat) ++ [Num.nat 0] by simp]
+    exact getLast?_append_single _ _
+  have hdrop : (x :: ((idx.map (· + 1)).map Num.nat ++ [Num.nat 0])).dropLast = x :: (idx.map (· + 1)).map Num.nat := by
+    rw [show x :: ((idx.map (· + 1)).map Num.nat ++ [Num.nat 0]) = (x :: (idx.map (· + 1)).map Num.nat) ++ [Num.nat 0] by simp]
+    exact List.dropLast_concat
+  simp only [hne, Bool.false_and, Bool.false_eq_true, if_false, hn, hlt, hlast, hdrop]
+  have hnats : natsOf ((idx.map (· + 1)).map Num.nat) = idx.map (· + 1) := natsOf_nats _
+  have h00 : (Num.nat 0).val = 0 := by simp [Num.val]
+  simp only [hnats, h00, hv, ne_eq, not_true_eq_false, if_false]
+
+theorem addBallot_fresh : ∀ (bs : RawBallots) (b : List Nat) (w : Rat), b ∉ bs.map (·.1) →
+    addBallot bs b w = bs ++ [(b, w)]
+  | [], b, w, _ => by simp [addBallot]
+  | (b', w') :: t, b, w, h => by
+      have hne : b' ≠ b := by intro e; apply h; simp [e]
+      have ht : b ∉ t.map (·.1) := by intro hm; apply h; simp [hm]
+      simp [addBallot, hne, addBallot_fresh t b w ht]
+
+/-- all ballot lines of the writer, then whatever follows -/
+theorem parseBody_votes : ∀ (bl : List (List Nat × Weight)) (rest : List Line) (acc : RawBallots) (wd : List Rat)
+    (seen : Bool),
+    (∀ b ∈ bl, weightOK b.2 = true) →
+    (acc.map (fun (a : List Nat × Rat) => a.1) ++ bl.map (fun (b : List Nat × Weight) => b.1.map (· + 1))).Nodup →
+    parseBody (bl.map dumpVote ++ rest) acc wd seen
+      = parseBody rest (acc ++ bl.map (fun b => (b.1.map (· + 1), b.2.val))) wd (seen || !bl.isEmpty)
+  | [], rest, acc, wd, seen, _, _ => by simp
+  | (idx, w) :: t, rest, acc, wd, seen, hok, hn => by
+      have hw : weightOK w = true := hok (idx, w) (List.mem_cons_self)
+      have h0 : 0 ≤ w.val := by
+        cases w with
+        | int z => simpa [weightOK, Weight.val] using hw
+        | decimal r d =>
+          simp only [weightOK, Bool.and_eq_true, decide_eq_true_eq] at hw
+          exact hw.1
+        | fraction r =>
+          simp only [weightOK, Bool.and_eq_true, decide_eq_true_eq] at hw
+          exact hw.1
+      have hfresh : idx.map (· + 1) ∉ acc.map (·.1) := by
+        intro hm
+        have := List.nodup_append.1 hn
+        exact this.2.2 _ hm _ (by simp) rfl
+      simp only [List.map_cons, List.cons_append]
+      rw [parseBody_vote idx w hw h0, addBallot_fresh acc _ _ hfresh]
+      have hn' : ((acc ++ [(idx.map (· + 1), w.val)]).map (fun (a : List Nat × Rat) => a.1)
+          ++ t.map (fun (b : List Nat × Weight) => b.1.map (· + 1))).Nodup := by
+        simpa [List.append_assoc] using hn
+      rw [parseBody_votes t rest _ wd true (fun b hb => hok b (List.mem_cons_of_mem _ hb)) hn']
+      simp
+
+
+/-- withdrawn lines `-(i+1)`: consumed before any ballot, each adds `i+1` to the withdrawn set -/
+theorem parseBody_withdrawn : ∀ (is : List Nat) (rest : List Line) (bs : RawBallots) (wd : List Rat),
+    parseBody (is.map (fun (i : Nat) => Line.toks [.dec (-((i : Rat) + 1))]) ++ rest) bs wd false
+      = parseBody rest bs (wd ++ is.map (fun (i : Nat) => (i : Rat) + 1)) false
+  | [], rest, bs, wd => by simp
+  | i :: t, rest, bs, wd => by
+      have hpos : (0 : Rat) < (i : Rat) + 1 := by positivity
+      have hneg : -((i : Rat) + 1) < 0 := by linarith
+      have hne : ¬ (-((i : Rat) + 1) = 0) := by linarith
+      simp only [List.map_cons, List.cons_append, parseBody, parseNumline, parseItems, ok_bind, pure_eq,
+        Bool.true_and, if_true]
+      simp only [List.isEmpty_nil, Bool.true_and, Num.val, hne, hneg, decide_false, Bool.and_false,
+        Bool.false_eq_true, if_false, if_true, List.map_nil, neg_neg, ne_eq, reduceCtorEq,
+        not_false_eq_true, decide_true]
+      rw [parseBody_withdrawn t rest bs]
+      simp
+
+/-- the end-of-ballots marker -/
+theorem parseBody_term (rest : List Line) (bs : RawBallots) (wd : List Rat) (seen : Bool) :
+    parseBody (Line.toks [.nat 0] :: rest) bs wd seen = .ok (bs, wd, rest) := by
+  simp [parseBody, parseNumline, parseItems, Num.val]
+
+/-! ### the string section -/
+theorem collect_quoted : ∀ (ss : List String) (acc : List String),
+    collectStrings (ss.map Line.quoted) false acc = .ok (acc ++ ss)
+  | [], acc => by simp [collectStrings]
+  | s :: t, acc => by simp [collectStrings, collect_quoted t (acc ++ [s])]
+
+theorem parseStrings_dump (names : List String) (title : Option String) :
+    parseStrings (names.map Line.quoted ++ (match title with | some t => [Line.quoted t] | none => [])) names.length
+      = .ok (if names.isEmpty then none else some names, title) ∨
+    (names = [] ∧ parseStrings (names.map Line.quoted ++ (match title with | some t => [Line.quoted t] | none => [])) names.length
+      = .ok (none, title)) := by
+  cases title with
+  | none =>
+    left
+    have : names.map Line.quoted ++ [] = names.map Line.quoted := by simp
+    simp only [this, parseStrings, collect_quoted, ok_bind, List.nil_append]
+    cases names with
+    | nil => simp
+    | cons a t =>
+      cases t with
+      | nil => simp
+      | cons b u => simp
+  | some ti =>
+    have hl : names.map Line.quoted ++ [Line.quoted ti] = (names ++ [ti]).map Line.quoted := by simp
+    simp only [hl, parseStrings, collect_quoted, ok_bind, List.nil_append]
+    cases names with
+    | nil => right; simp
+    | cons a t =>
+      left
+      have h1 : ¬ ((a :: t) ++ [ti]).length = 1 := by simp
+      have h2 : ¬ ((a :: t) ++ [ti]).length < (a :: t).length := by simp
+      have h3 : ¬ ((a :: t) ++ [ti]).length = (a :: t).length := by simp
+      have h4 : ((a :: t) ++ [ti]).length = (a :: t).length + 1 := by simp
+      have h5 : ((a :: t) ++ [ti]).isEmpty = false := by simp
+      simp only [h1, h2, h3, h4, h5, if_false, if_true, Bool.false_eq_true]
+      have e : a :: (t ++ [ti]) = (a :: t) ++ [ti] := rfl
+      simp only [List.cons_append] 
+      rw [e, List.dropLast_concat, getLast?_append_single]
+      simp
+
+
+/-! ### withdrawn flags -/
+theorem wdFrom_ge : ∀ (cs : List (String × Bool)) (k i : Nat), i ∈ wdFrom k cs → k ≤ i
+  | [], k, i, h => by simp [wdFrom] at h
+  | c :: t, k, i, h => by
+      simp only [wdFrom] at h
+      split at h
+      · rcases List.mem_cons.1 h with h1 | h1
+        · omega
+        · have := wdFrom_ge t (k + 1) i h1; omega
+      · have := wdFrom_ge t (k + 1) i h; omega
+
+theorem formFrom_wd : ∀ (cs : List (String × Bool)) (k : Nat) (W' : List Rat),
+    (∀ x ∈ W', x < (k : Rat) + 1) →
+    formFrom (W' ++ (wdFrom k cs).map (fun (i : Nat) => (i : Rat) + 1)) k (cs.map (·.1)) = cs
+  | [], k, W', _ => by simp [formFrom]
+  | (nm, fl) :: t, k, W', hW => by
+      have hnot : ((k : Rat) + 1) ∉ W' := fun hm => lt_irrefl _ (hW _ hm)
+      have hW2 : ∀ x ∈ W' ++ [(k : Rat) + 1], x < ((k + 1 : Nat) : Rat) + 1 := by
+        intro x hx
+        rcases List.mem_append.1 hx with h1 | h1
+        · have := hW x h1; push_cast; linarith
+        · simp at h1; subst h1; push_cast; linarith
+      have hW1 : ∀ x ∈ W', x < ((k + 1 : Nat) : Rat) + 1 := by
+        intro x hx; have := hW x hx; push_cast; linarith
+      cases fl with
+      | true =>
+        simp only [List.map_cons, formFrom, wdFrom, if_true]
+        have hmem : ((k : Rat) + 1) ∈ W' ++ ((k : Rat) + 1) :: (wdFrom (k + 1) t).map (fun (i : Nat) => (i : Rat) + 1) := by
+          simp
+        have e : W' ++ ((k : Rat) + 1) :: (wdFrom (k + 1) t).map (fun (i : Nat) => (i : Rat) + 1)
+            = (W' ++ [(k : Rat) + 1]) ++ (wdFrom (k + 1) t).map (fun (i : Nat) => (i : Rat) + 1) := by simp
+        simp only [hmem, decide_true]
+        rw [e, formFrom_wd t (k + 1) _ hW2]
+      | false =>
+        simp only [List.map_cons, formFrom, wdFrom, Bool.false_eq_true, if_false]
+        have hmem : ((k : Rat) + 1) ∉ W' ++ (wdFrom (k + 1) t).map (fun (i : Nat) => (i : Rat) + 1) := by
+          intro hm
+          rcases List.mem_append.1 hm with h1 | h1
+          · exact hnot h1
+          · simp only [List.mem_map] at h1
+            obtain ⟨i, hi, he⟩ := h1
+            have := wdFrom_ge t (k + 1) i hi
+            have h2 : (i : Rat) = (k : Rat) := by linarith
+            have h3 : i = k := by exact_mod_cast h2
+            omega
+        simp only [hmem, decide_false]
+        rw [formFrom_wd t (k + 1) _ hW1]
+
+theorem formCandidates_dump (cands : List (String × Bool)) :
+    formCandidates (cands.map (·.1)) ((withdrawnInds cands).map (fun (i : Nat) => (i : Rat) + 1)) = cands := by
+  have := formFrom_wd cands 0 [] (by simp)
+  simpa [formCandidates, withdrawnInds] using this
+
+theorem formFrom_length (W : List Rat) : ∀ (names : List String) (k : Nat), (formFrom W k names).length = names.length
+  | [], _ => rfl
+  | _ :: t, k => by simp [formFrom, formFrom_length W t (k + 1)]
+
+/-! ### back from 1-based numbers to candidates -/
+theorem deindexOne_succ (n : Nat) : ∀ idx : List Nat, (∀ i ∈ idx, i < n) → deindexOne n (idx.map (· + 1)) = .ok idx
+  | [], _ => rfl
+  | i :: t, h => by
+      have hi : i < n := h i (List.mem_cons_self)
+      have h1 : pyIndex n (i + 1) = .ok i := by
+        have : i + 1 ≤ n := hi
+        simp [pyIndex, this]
+      simp [deindexOne, h1, deindexOne_succ n t (fun j hj => h j (List.mem_cons_of_mem _ hj))]
+
+theorem setBallot_fresh : ∀ (bs : List (List Nat × Rat)) (b : List Nat) (w : Rat), b ∉ bs.map (·.1) →
+    setBallot bs b w = bs ++ [(b, w)]
+  | [], b, w, _ => by simp [setBallot]
+  | (b', w') :: t, b, w, h => by
+      have hne : b' ≠ b := by intro e; apply h; simp [e]
+      have ht : b ∉ t.map (·.1) := by intro hm; apply h; simp [hm]
+      simp [setBallot, hne, setBallot_fresh t b w ht]
+
+theorem deindex_dump (n : Nat) : ∀ (bl : List (List Nat × Rat)) (acc : List (List Nat × Rat)),
+    (∀ b ∈ bl, ∀ i ∈ b.1, i < n) →
+    (acc.map (fun (a : List Nat × Rat) => a.1) ++ bl.map (fun (b : List Nat × Rat) => b.1)).Nodup →
+    deindex n (bl.map (fun b => (b.1.map (· + 1), b.2))) acc = .ok (acc ++ bl)
+  | [], acc, _, _ => by simp [deindex]
+  | (idx, w) :: t, acc, hi, hn => by
+      have hfresh : idx ∉ acc.map (·.1) := by
+        intro hm
+        have := List.nodup_append.1 hn
+        exact this.2.2 _ hm _ (by simp) rfl
+      have hn' : ((acc ++ [(idx, w)]).map (fun (a : List Nat × Rat) => a.1) ++ t.map (fun (b : List Nat × Rat) => b.1)).Nodup := by
+        simpa [List.append_assoc] using hn
+      simp only [List.map_cons, deindex]
+      rw [deindexOne_succ n idx (hi (idx, w) (List.mem_cons_self))]
+      simp only [ok_bind]
+      rw [setBallot_fresh acc idx w hfresh, deindex_dump n t _ (fun b hb => hi b (List.mem_cons_of_mem _ hb)) hn']
+      simp
+
+
+/-! ### assembly -/
+theorem dumpBlt_shape (d : Doc Weight) :
+    dumpBlt d = Line.toks [.nat d.cands.length, .nat d.nSeats] ::
+      ((withdrawnInds d.cands).map (fun (i : Nat) => Line.toks [.dec (-((i : Rat) + 1))]) ++
+        (d.ballots.map dumpVote ++ (Line.toks [.nat 0] ::
+          (d.cands.map (fun c => Line.quoted c.1) ++ (match d.title with | some t => [Line.quoted t] | none => []))))) := by
+  cases h : d.title <;> simp [dumpBlt, h, List.append_assoc]
+
+theorem load_dump (d : Doc Weight) (h : WFdoc d = true) : loadBlt (dumpBlt d) = .ok (eraseDoc d) := by
+  simp only [WFdoc, Bool.and_eq_true, List.all_eq_true, decide_eq_true_eq] at h
+  obtain ⟨hall, hnd⟩ := h
+  have hok : ∀ b ∈ d.ballots, weightOK b.2 = true := fun b hb => (hall b hb).2
+  have hidx : ∀ b ∈ d.ballots, ∀ i ∈ b.1, i < d.cands.length := fun b hb i hi => by
+    have := (hall b hb).1 i hi
+    simpa using this
+  have hinj : Function.Injective (fun (l : List Nat) => l.map (· + 1)) := by
+    intro a b hab
+    exact List.map_injective_iff.2 (fun x y hxy => by simpa using hxy) hab
+  have hnd1 : (([] : RawBallots).map (fun (a : List Nat × Rat) => a.1)
+      ++ d.ballots.map (fun (b : List Nat × Weight) => b.1.map (· + 1))).Nodup := by
+    simp only [List.map_nil, List.nil_append]
+    have : d.ballots.map (fun (b : List Nat × Weight) => b.1.map (· + 1))
+        = (d.ballots.map (·.1)).map (fun l => l.map (· + 1)) := by simp
+    rw [this]
+    exact hnd.map hinj
+  rw [dumpBlt_shape]
+  simp only [loadBlt]
+  have hh : parseHeader (Line.toks [.nat d.cands.length, .nat d.nSeats]) = .ok (d.cands.length, d.nSeats) := by
+    simp [parseHeader, parseNumline, parseItems]
+  rw [hh]
+  simp only [ok_bind]
+  rw [parseBody_withdrawn, parseBody_votes _ _ _ _ _ hok hnd1, parseBody_term]
+  simp only [ok_bind, List.nil_append]
+  have hnames : d.cands.map (fun c => Line.quoted c.1) = (d.cands.map (·.1)).map Line.quoted := by simp
+  have hlen : d.cands.length = (d.cands.map (·.1)).length := by simp
+  have hraw : d.ballots.map (fun b => (b.1.map (· + 1), b.2.val))
+      = (d.ballots.map (fun b => (b.1, b.2.val))).map (fun (b : List Nat × Rat) => (b.1.map (· + 1), b.2)) := by simp
+  have hnd2 : (([] : List (List Nat × Rat)).map (fun (a : List Nat × Rat) => a.1)
+      ++ (d.ballots.map (fun b => (b.1, b.2.val))).map (fun (b : List Nat × Rat) => b.1)).Nodup := by
+    have e : ((fun (a : List Nat × Rat) => a.1) ∘ fun (b : List Nat × Weight) => (b.1, b.2.val)) = (fun b => b.1) := rfl
+    simp only [List.map_nil, List.nil_append, List.map_map, e]
+    exact hnd
+  have hidx2 : ∀ b ∈ d.ballots.map (fun b => (b.1, b.2.val)), ∀ i ∈ b.1, i < d.cands.length := by
+    intro b hb i hi
+    simp only [List.mem_map] at hb
+    obtain ⟨b0, hb0, rfl⟩ := hb
+    exact hidx b0 hb0 i hi
+  rw [hnames]
+  conv => lhs; arg 1; arg 2; rw [hlen]
+  rcases parseStrings_dump (d.cands.map (·.1)) d.title with hps | ⟨hnil, hps⟩
+  · rw [hps]
+    simp only [ok_bind]
+    have hgetD : (if (d.cands.map (·.1)).isEmpty then none else some (d.cands.map (·.1))).getD
+        (numericCandidates d.cands.length) = d.cands.map (·.1) := by
+      cases hc : d.cands with
+      | nil => simp [numericCandidates]
+      | cons a t => simp
+    rw [hgetD, formCandidates_dump, hraw, deindex_dump _ _ _ hidx2 hnd2]
+    simp [eraseDoc]
+  · rw [hps]
+    simp only [ok_bind]
+    have hc : d.cands = [] := by simpa using hnil
+    have hgetD : (none : Option (List String)).getD (numericCandidates d.cands.length) = d.cands.map (·.1) := by
+      simp [hc, numericCandidates]
+    rw [hgetD, formCandidates_dump, hraw, deindex_dump _ _ _ hidx2 hnd2]
+    simp [eraseDoc]
+
+
+/-! ### which exceptions the parser can raise -/
+
+/-- errors of the number-line lexer -/
+def LexErr (e : Err) : Prop := e = Err.parseError ∨ e = Err.other "ValueError" ∨ e = Err.other "InvalidOperation"
+
+theorem parseItems_err (a : Bool) : ∀ (ts : List Tok) (i0 : Bool) (e : Err), parseItems a i0 ts = .error e → LexErr e
+  | [], _, e, h => by simp [parseItems] at h
+  | t :: ts, i0, e, h => by
+      simp only [parseItems] at h
+      cases t with
+      | nat n =>
+        simp only [ok_bind, pure_eq] at h
+        cases hr : parseItems a false ts with
+        | error e' => rw [hr] at h; simp at h; subst h; exact parseItems_err a ts false e' hr
+        | ok xs => rw [hr] at h; simp at h
+      | udigit => simp at h; subst h; exact Or.inr (Or.inl rfl)
+      | dec r =>
+        by_cases hc : (i0 && a) = true
+        · simp only [hc, if_true, ok_bind, pure_eq] at h
+          cases hr : parseItems a false ts with
+          | error e' => rw [hr] at h; simp at h; subst h; exact parseItems_err a ts false e' hr
+          | ok xs => rw [hr] at h; simp at h
+        · simp only [hc, if_false] at h; simp at h; subst h; exact Or.inl rfl
+      | nan =>
+        by_cases hc : (i0 && a) = true
+        · simp only [hc, if_true, ok_bind, pure_eq] at h
+          cases hr : parseItems a false ts with
+          | error e' => rw [hr] at h; simp at h; subst h; exact parseItems_err a ts false e' hr
+          | ok xs => rw [hr] at h; simp at h
+        · simp only [hc, if_false] at h; simp at h; subst h; exact Or.inl rfl
+      | bad =>
+        by_cases hc : (i0 && a) = true
+        · simp only [hc, if_true] at h; simp at h; subst h; exact Or.inr (Or.inr rfl)
+        · simp only [hc, if_false] at h; simp at h; subst h; exact Or.inl rfl
+
+theorem parseNumline_err (a : Bool) (l : Line) (e : Err) (h : parseNumline a l = .error e) : LexErr e := by
+  cases l with
+  | blank => simp [parseNumline] at h
+  | quoted s =>
+    cases a <;> simp [parseNumline] at h <;> subst h
+    · exact Or.inl rfl
+    · exact Or.inr (Or.inr rfl)
+  | toks ts => exact parseItems_err a ts true e h
+
+theorem parseHeader_err (l : Line) (e : Err) (h : parseHeader l = .error e) : LexErr e := by
+  simp only [parseHeader] at h
+  cases hr : parseNumline false l with
+  | error e' => rw [hr] at h; simp at h; subst h; exact parseNumline_err _ _ _ hr
+  | ok xs =>
+    rw [hr] at h
+    simp only [ok_bind] at h
+    split at h
+    · simp at h
+    · simp at h; subst h; exact Or.inl rfl
+
+theorem parseBody_err : ∀ (ls : List Line) (bs : RawBallots) (wd : List Rat) (seen : Bool) (e : Err),
+    parseBody ls bs wd seen = .error e → LexErr e
+  | [], _, _, _, e, h => by simp [parseBody] at h; subst h; exact Or.inl rfl
+  | l :: rest, bs, wd, seen, e, h => by
+      simp only [parseBody] at h
+      cases hr : parseNumline true l with
+      | error e' => rw [hr] at h; simp at h; subst h; exact parseNumline_err _ _ _ hr
+      | ok result =>
+        rw [hr] at h
+        simp only [ok_bind] at h
+        cases result with
+        | nil => exact parseBody_err rest bs wd seen e h
+        | cons first more =>
+          simp only at h
+          split at h
+          · simp at h
+          · split at h
+            · simp at h; subst h; exact Or.inr (Or.inr rfl)
+            · split at h
+              · split at h
+                · simp at h; subst h; exact Or.inl rfl
+                · exact parseBody_err rest bs _ seen e h
+              · split at h
+                · split at h
+                  · simp at h; subst h; exact Or.inl rfl
+                  · split at h
+                    · simp at h; subst h; exact Or.inl rfl
+                    · exact parseBody_err rest _ wd true e h
+                · simp at h; subst h; exact Or.inl rfl
+
+theorem collectStrings_err : ∀ (ls : List Line) (b : Bool) (acc : List String) (e : Err),
+    collectStrings ls b acc = .error e → e = Err.parseError
+  | [], _, _, e, h => by simp [collectStrings] at h
+  | .quoted s :: rest, b, acc, e, h => by
+      simp only [collectStrings] at h
+      split at h
+      · simp at h; exact h.symm
+      · exact collectStrings_err rest b _ e h
+  | .blank :: rest, b, acc, e, h => by
+      simp only [collectStrings] at h
+      exact collectStrings_err rest true acc e h
+  | .toks ts :: rest, b, acc, e, h => by
+      simp [collectStrings] at h; exact h.symm
+
+theorem parseStrings_err (ls : List Line) (n : Nat) (e : Err) (h : parseStrings ls n = .error e) : e = Err.parseError := by
+  simp only [parseStrings] at h
+  cases hc : collectStrings ls false [] with
+  | error e' => rw [hc] at h; simp at h; subst h; exact collectStrings_err _ _ _ _ hc
+  | ok parsed =>
+    rw [hc] at h
+    simp only [ok_bind] at h
+    repeat' split at h
+    all_goals first | (simp at h; done) | (simp at h; exact h.symm)
+
+theorem deindexOne_err (n : Nat) : ∀ (idx : List Nat) (e : Err), deindexOne n idx = .error e → e = Err.other "IndexError"
+  | [], e, h => by simp [deindexOne] at h
+  | i :: t, e, h => by
+      simp only [deindexOne] at h
+      cases hp : pyIndex n i with
+      | error e' =>
+        rw [hp] at h; simp at h; subst h
+        simp only [pyIndex] at hp
+        repeat' split at hp
+        all_goals first | (simp at hp; done) | (simp at hp; exact hp.symm)
+      | ok j =>
+        rw [hp] at h
+        simp only [ok_bind] at h
+        cases ht : deindexOne n t with
+        | error e' => rw [ht] at h; simp at h; subst h; exact deindexOne_err n t e' ht
+        | ok js => rw [ht] at h; simp at h
+
+theorem deindex_err (n : Nat) : ∀ (bs : RawBallots) (acc : List (List Nat × Rat)) (e : Err),
+    deindex n bs acc = .error e → e = Err.other "IndexError"
+  | [], _, e, h => by simp [deindex] at h
+  | (b, w) :: t, acc, e, h => by
+      simp only [deindex] at h
+      cases hb : deindexOne n b with
+      | error e' => rw [hb] at h; simp at h; subst h; exact deindexOne_err n b e' hb
+      | ok b' => rw [hb] at h; simp only [ok_bind] at h; exact deindex_err n t _ e h
+
+/-- every exception `loads` can raise on any token lines -/
+theorem loadBlt_err (ls : List Line) (e : Err) (h : loadBlt ls = .error e) : LexErr e ∨ e = Err.other "IndexError" := by
+  cases ls with
+  | nil => simp [loadBlt] at h; subst h; exact Or.inl (Or.inl rfl)
+  | cons hd rest =>
+    simp only [loadBlt] at h
+    cases hh : parseHeader hd with
+    | error e' => rw [hh] at h; simp at h; subst h; exact Or.inl (parseHeader_err _ _ hh)
+    | ok ns =>
+      obtain ⟨nC, nS⟩ := ns
+      rw [hh] at h
+      simp only [ok_bind] at h
+      cases hb : parseBody rest [] [] false with
+      | error e' => rw [hb] at h; simp at h; subst h; exact Or.inl (parseBody_err _ _ _ _ _ hb)
+      | ok r =>
+        obtain ⟨bal, wd, rest'⟩ := r
+        rw [hb] at h
+        simp only [ok_bind] at h
+        cases hs : parseStrings rest' nC with
+        | error e' => rw [hs] at h; simp at h; subst h; exact Or.inl (Or.inl (parseStrings_err _ _ _ hs))
+        | ok r2 =>
+          obtain ⟨names?, title⟩ := r2
+          rw [hs] at h
+          simp only [ok_bind] at h
+          cases hd2 : deindex (formCandidates (names?.getD (numericCandidates nC)) wd).length bal [] with
+          | error e' => rw [hd2] at h; simp at h; subst h; exact Or.inr (deindex_err _ _ _ _ hd2)
+          | ok tb => rw [hd2] at h; simp at h
+
+
+/-! ### lexically sane texts raise nothing but the parse error (and IndexError for candidate numbers out of range) -/
+
+theorem parseItems_num (a : Bool) : ∀ (ts : List Tok) (i0 : Bool), ts.all Tok.isNum = true →
+    (∀ e, parseItems a i0 ts = .error e → e = Err.parseError) ∧
+    (∀ xs, parseItems a i0 ts = .ok xs → ∀ x ∈ xs, x ≠ Num.nan)
+  | [], _, _ => by simp [parseItems]
+  | t :: ts, i0, h => by
+      simp only [List.all_cons, Bool.and_eq_true] at h
+      obtain ⟨ht, hts⟩ := h
+      obtain ⟨ih1, ih2⟩ := parseItems_num a ts false hts
+      cases t with
+      | nat n =>
+        simp only [parseItems, ok_bind, pure_eq]
+        cases hr : parseItems a false ts with
+        | error e' => simp; exact ih1 e' hr
+        | ok xs =>
+          simp
+          exact ih2 xs hr
+      | dec r =>
+        simp only [parseItems]
+        by_cases hc : (i0 && a) = true
+        · simp only [hc, if_true, ok_bind, pure_eq]
+          cases hr : parseItems a false ts with
+          | error e' => simp; exact ih1 e' hr
+          | ok xs =>
+            simp
+            exact ih2 xs hr
+        · simp [hc]
+      | nan => simp [Tok.isNum] at ht
+      | udigit => simp [Tok.isNum] at ht
+      | bad => simp [Tok.isNum] at ht
+
+theorem isTerm_parseBody (ts : List Tok) (h : isTerm ts = true) (rest : List Line) (bs : RawBallots) (wd : List Rat)
+    (seen : Bool) : parseBody (Line.toks ts :: rest) bs wd seen = .ok (bs, wd, rest) := by
+  match ts, h with
+  | [.nat n], h =>
+    have : n = 0 := by simpa [isTerm] using h
+    subst this
+    exact parseBody_term rest bs wd seen
+  | [.dec r], h =>
+    have : r = 0 := by simpa [isTerm] using h
+    subst this
+    simp [parseBody, parseNumline, parseItems, Num.val]
+
+theorem parseBody_lexOK : ∀ (ls : List Line) (bs : RawBallots) (wd : List Rat) (seen : Bool) (e : Err),
+    bodyLexOK ls = true → parseBody ls bs wd seen = .error e → e = Err.parseError
+  | [], _, _, _, e, _, h => by simp [parseBody] at h; exact h.symm
+  | .blank :: rest, bs, wd, seen, e, hl, h => by
+      simp only [bodyLexOK] at hl
+      simp only [parseBody, parseNumline, pure_eq, ok_bind] at h
+      exact parseBody_lexOK rest bs wd seen e hl h
+  | .quoted s :: rest, _, _, _, _, hl, _ => by simp [bodyLexOK] at hl
+  | .toks ts :: rest, bs, wd, seen, e, hl, h => by
+      simp only [bodyLexOK, Bool.and_eq_true, Bool.or_eq_true] at hl
+      obtain ⟨hnum, hterm⟩ := hl
+      by_cases hT : isTerm ts = true
+      · rw [isTerm_parseBody ts hT] at h; cases h
+      · have hrest : bodyLexOK rest = true := by
+          cases hterm with
+          | inl h1 => exact absurd h1 hT
+          | inr h1 => exact h1
+        obtain ⟨hE, hN⟩ := parseItems_num true ts true hnum
+        simp only [parseBody, parseNumline] at h
+        cases hr : parseItems true true ts with
+        | error e' => rw [hr] at h; simp at h; subst h; exact hE e' hr
+        | ok result =>
+          rw [hr] at h
+          simp only [ok_bind] at h
+          cases result with
+          | nil => exact parseBody_lexOK rest bs wd seen e hrest h
+          | cons first more =>
+            have hfirst : first ≠ Num.nan := hN _ hr first (List.mem_cons_self)
+            simp only at h
+            repeat' split at h
+            all_goals first
+              | contradiction
+              | (simp at h; done)
+              | (simp at h; exact h.symm)
+              | exact parseBody_lexOK rest _ _ _ e hrest h
+
+theorem parseItems_false_noudigit : ∀ (ts : List Tok) (i0 : Bool) (e : Err), ts.all (· ≠ Tok.udigit) = true →
+    parseItems false i0 ts = .error e → e = Err.parseError
+  | [], _, e, _, h => by simp [parseItems] at h
+  | t :: ts, i0, e, hu, h => by
+      simp only [List.all_cons, Bool.and_eq_true, decide_eq_true_eq] at hu
+      obtain ⟨hu1, hu2⟩ := hu
+      cases t with
+      | nat n =>
+        simp only [parseItems, ok_bind, pure_eq] at h
+        cases hr : parseItems false false ts with
+        | error e' => rw [hr] at h; simp at h; subst h; exact parseItems_false_noudigit ts false e' hu2 hr
+        | ok xs => rw [hr] at h; simp at h
+      | udigit => exact absurd rfl hu1
+      | dec r => simp [parseItems] at h; exact h.symm
+      | nan => simp [parseItems] at h; exact h.symm
+      | bad => simp [parseItems] at h; exact h.symm
+
+def headOK : Line → Bool
+  | .toks ts => ts.all (· ≠ Tok.udigit)
+  | _ => true
+
+theorem lexOK_cons (hd : Line) (rest : List Line) : lexOK (hd :: rest) = (headOK hd && bodyLexOK rest) := by
+  cases hd <;> simp [lexOK, headOK]
+
+theorem parseHeader_lexOK (l : Line) (e : Err) (hl : headOK l = true)
+    (h : parseHeader l = .error e) : e = Err.parseError := by
+  simp only [parseHeader] at h
+  cases hr : parseNumline false l with
+  | error e' =>
+    rw [hr] at h; simp at h; subst h
+    cases l with
+    | blank => simp [parseNumline] at hr
+    | quoted s => simp [parseNumline] at hr; exact hr.symm
+    | toks ts => exact parseItems_false_noudigit ts true e' hl hr
+  | ok xs =>
+    rw [hr] at h
+    simp only [ok_bind] at h
+    split at h
+    · simp at h
+    · simp at h; exact h.symm
+
+theorem loadBlt_lexOK (ls : List Line) (e : Err) (hl : lexOK ls = true) (h : loadBlt ls = .error e) :
+    e = Err.parseError ∨ e = Err.other "IndexError" := by
+  cases ls with
+  | nil => simp [loadBlt] at h; exact Or.inl h.symm
+  | cons hd rest =>
+    rw [lexOK_cons, Bool.and_eq_true] at hl
+    obtain ⟨hhead, hbody⟩ := hl
+    simp only [loadBlt] at h
+    cases hh : parseHeader hd with
+    | error e' => rw [hh] at h; simp at h; subst h; exact Or.inl (parseHeader_lexOK _ _ hhead hh)
+    | ok ns =>
+      obtain ⟨nC, nS⟩ := ns
+      rw [hh] at h
+      simp only [ok_bind] at h
+      cases hb : parseBody rest [] [] false with
+      | error e' => rw [hb] at h; simp at h; subst h; exact Or.inl (parseBody_lexOK _ _ _ _ _ hbody hb)
+      | ok r =>
+        obtain ⟨bal, wd, rest'⟩ := r
+        rw [hb] at h
+        simp only [ok_bind] at h
+        cases hs : parseStrings rest' nC with
+        | error e' => rw [hs] at h; simp at h; subst h; exact Or.inl (parseStrings_err _ _ _ hs)
+        | ok r2 =>
+          obtain ⟨names?, title⟩ := r2
+          rw [hs] at h
+          simp only [ok_bind] at h
+          cases hd2 : deindex (formCandidates (names?.getD (numericCandidates nC)) wd).length bal [] with
+          | error e' => rw [hd2] at h; simp at h; subst h; exact Or.inr (deindex_err _ _ _ _ hd2)
+          | ok tb => rw [hd2] at h; simp at h
 
 end VL.Blt
